@@ -135,6 +135,11 @@ fiber_t* fiber_create_from_thread() {
 
 #include <stdio.h>
 
+// stored by fiber_detach() in the result slot of a fiber it wakes out of
+// fiber_join(); the address can never be the return value of a fiber
+static char fiber_join_detached_sentinel;
+#define FIBER_JOIN_DETACHED ((void*)&fiber_join_detached_sentinel)
+
 int fiber_join(fiber_t* f, void** result) {
   assert(f);
   if (result) {
@@ -151,6 +156,11 @@ int fiber_join(fiber_t* f, void** result) {
     fiber_manager_t* const manager = fiber_manager_get();
     fiber_t* const current_fiber = manager->current_fiber;
     fiber_manager_set_and_wait(manager, (void**)&f->join_info, current_fiber);
+    if (current_fiber->result == FIBER_JOIN_DETACHED) {
+      // the fiber was detached while we were waiting - there is no result
+      current_fiber->result = NULL;
+      return FIBER_ERROR;
+    }
     if (result) {
       *result = current_fiber->result;
     }
@@ -219,9 +229,13 @@ int fiber_detach(fiber_t* f) {
   if (old_state == FIBER_DETACH_WAIT_FOR_JOINER ||
       old_state == FIBER_DETACH_WAIT_TO_JOIN) {
     // wake up the fiber or the fiber trying to join it (this second case is a
-    // convenience, pthreads specifies undefined behaviour in that case)
+    // convenience, pthreads specifies undefined behaviour in that case; the
+    // woken fiber_join() fails with FIBER_ERROR)
     fiber_t* const to_schedule = fiber_manager_clear_or_wait(
         fiber_manager_get(), (_Atomic(void*)*)&f->join_info);
+    if (to_schedule != f) {
+      to_schedule->result = FIBER_JOIN_DETACHED;
+    }
     to_schedule->state = FIBER_STATE_READY;
     fiber_manager_schedule(fiber_manager_get(), to_schedule);
   } else if (old_state == FIBER_DETACH_DETACHED) {
